@@ -1,7 +1,7 @@
 """Orchestration helpers: hashing, harness build, TLC runner, TLA value parser, evidence, known findings."""
 import hashlib, json, os, re, subprocess, sys, time, glob, shutil
 
-ROOT = '/verif'
+ROOT = os.path.dirname(os.path.dirname(os.path.abspath(__file__)))
 REPO = '/repo'
 OUT = os.path.join(ROOT, 'out')
 SPEC = os.path.join(ROOT, 'spec')
